@@ -1,1 +1,213 @@
-let () = ()
+(* C18: replay the harness trace through the extracted Gallina model of the three MergeResults and of
+   CommonAnalysisResult.Merge (fine correspondence, MISMATCH) and judge the real outputs with the
+   extracted specification oracles (PROPFAIL). *)
+open C18_model
+open Conv
+
+(* ---------- conversions ---------- *)
+let name_of_sx (s : sx) : z list =
+  let a = atom s in
+  let n = String.length a in
+  if n < 2 || a.[0] <> '"' || a.[n - 1] <> '"' then failwith ("string atom expected: " ^ a);
+  List.init (n - 2) (fun i -> z_of_int (Char.code a.[i + 1]))
+let string_of_name (l : z list) : string =
+  String.concat "" (List.map (fun c -> String.make 1 (Char.chr (int_of_z c))) l)
+let names_of (s : sx) : z list list = List.map name_of_sx (args s)
+let z_of_sx s = z_of_int (int_of_sx s)
+
+let common_of_sx (s : sx) : common =
+  match args s with
+  | [b; e; c; r; items] ->
+      let it = args items in
+      let present = int_of_sx (List.hd it) <> 0 in
+      { c_begin = z_of_sx b; c_end = z_of_sx e; c_commits = z_of_sx c; c_runtime = z_of_sx r;
+        c_items = if present then Some (List.map name_of_sx (List.tl it)) else None }
+  | _ -> failwith "common"
+
+let ls_of a r c = { ls_added = z_of_sx a; ls_removed = z_of_sx r; ls_changed = z_of_sx c }
+
+let devs_of_sx (s : sx) : devsResult =
+  let ticks = List.map (fun t ->
+      match list_of_sx t with
+      | tk :: devs ->
+          (z_of_sx tk, List.map (fun e ->
+               match list_of_sx e with
+               | d :: c :: a :: r :: ch :: langs ->
+                   (z_of_sx d, { dt_commits = z_of_sx c; dt_ls = ls_of a r ch;
+                                 dt_langs = List.map (fun l -> match list_of_sx l with
+                                     | [n; a; r; c] -> (name_of_sx n, ls_of a r c)
+                                     | _ -> failwith "lang") langs })
+               | _ -> failwith "dev entry") devs)
+      | _ -> failwith "tick") (args (field "ticks" s)) in
+  { dr_ticks = ticks; dr_people = names_of (field "people" s);
+    dr_ticksize = z_of_sx (List.hd (args (field "ticksize" s))) }
+
+let kvrows_of (s : sx) : row list =
+  List.map (fun r -> List.map (fun kv -> match list_of_sx kv with
+      | [k; v] -> (z_of_sx k, z_of_sx v) | _ -> failwith "kv") (list_of_sx r)) (args s)
+
+let couples_of_sx (s : sx) : couplesResult =
+  { cr_pm = kvrows_of (field "pm" s); cr_pf = List.map zs_of_sx (args (field "pf" s));
+    cr_fm = kvrows_of (field "fm" s); cr_fl = List.map z_of_sx (args (field "lines" s));
+    cr_files = names_of (field "files" s); cr_people = names_of (field "people" s) }
+
+let mat_of_sx (s : sx) : matrix = List.map zs_of_sx (list_of_sx s)
+
+let burndown_of_sx (s : sx) : burndownResult =
+  let one t = List.hd (args (field t s)) in
+  { br_global = mat_of_sx (one "global"); br_ph = List.map mat_of_sx (args (field "ph" s));
+    br_pm = mat_of_sx (one "pm"); br_people = names_of (field "people" s);
+    br_ticksize = z_of_sx (one "ticksize"); br_sampling = z_of_sx (one "sampling");
+    br_granularity = z_of_sx (one "granularity") }
+
+let table_of_sx (s : sx) : table * z list list =
+  let entries = List.map (fun e -> match list_of_sx e with
+      | [k; f; a; b] -> (name_of_sx k, { final = z_of_sx f; first = z_of_sx a; second = z_of_sx b })
+      | _ -> failwith "table entry") (args (field "entries" s)) in
+  (entries, names_of (field "merged" s))
+
+(* ---------- canonical forms for comparison (Go maps have no order) ---------- *)
+let sort_assoc l = List.sort (fun (a, _) (b, _) -> compare a b) l
+let canon_devs (d : devsResult) =
+  (List.map string_of_name d.dr_people, int_of_z d.dr_ticksize,
+   sort_assoc (List.map (fun (t, dd) ->
+       (int_of_z t, sort_assoc (List.map (fun (dv, s) ->
+            (int_of_z dv, (int_of_z s.dt_commits, int_of_z s.dt_ls.ls_added, int_of_z s.dt_ls.ls_removed,
+                           int_of_z s.dt_ls.ls_changed,
+                           sort_assoc (List.map (fun (n, l) ->
+                               (string_of_name n, (int_of_z l.ls_added, int_of_z l.ls_removed, int_of_z l.ls_changed)))
+                               s.dt_langs)))) dd))) d.dr_ticks))
+let canon_rows (rows : row list) = List.map (fun r -> sort_assoc (List.map (fun (k, v) -> (int_of_z k, int_of_z v)) r)) rows
+let canon_couples (c : couplesResult) =
+  (List.map string_of_name c.cr_people, List.map string_of_name c.cr_files, List.map int_of_z c.cr_fl,
+   List.map (List.map int_of_z) c.cr_pf, canon_rows c.cr_pm, canon_rows c.cr_fm)
+let canon_common (c : common) =
+  (int_of_z c.c_begin, int_of_z c.c_end, int_of_z c.c_commits, int_of_z c.c_runtime,
+   match c.c_items with None -> None | Some l -> Some (List.sort compare (List.map string_of_name l)))
+
+let show_ints l = "[" ^ String.concat ";" (List.map string_of_int l) ^ "]"
+let kind_of r = match r with Ok _ -> "ok" | Panic -> "panic" | TickErr -> "tickerr"
+
+(* compare the kind of outcome; returns the two payloads when both are ok *)
+let outcome id what (model : 'a result) (out : sx) : ('a * sx) option =
+  let gk = tag out in
+  let mk = kind_of model in
+  if gk <> mk then begin
+    mismatch id (Printf.sprintf "%s: implementation %s, model %s" what gk mk); None
+  end else match model with
+    | Ok m -> count (what ^ "_ok"); Some (m, List.hd (args out))
+    | Panic -> count (what ^ "_panic"); None
+    | TickErr -> count (what ^ "_tickerr"); None
+
+let () =
+  iter_cases (fun id c ->
+    let an = atom (List.hd (args (field "an" c))) in
+    let obs = field "obs" c in
+    let out = List.hd (args (field "out" obs)) in
+    let c1 = common_of_sx (field "c1" c) and c2 = common_of_sx (field "c2" c) in
+    match an with
+    | "common" ->
+        let m = common_merge c1 c2 in
+        (match outcome id "common" m out with
+         | None ->
+             (* the panic is part of the contract: exactly when the receiver has no end or the argument no begin
+                (or the receiver's per-item map is nil while the argument's is not empty) *)
+             ()
+         | Some (mc, o) ->
+             let gc = common_of_sx o in
+             if not (common_b c1 c2 gc) then
+               propfail id "common summary: begin/end/commits/run time are not min/max/sum/sum of the inputs";
+             if canon_common gc <> canon_common mc then mismatch id "common: merged summary differs from the model")
+    | _ ->
+        let (people, merged) = table_of_sx (field "idtab" obs) in
+        let r1s = List.hd (args (field "r1" c)) and r2s = List.hd (args (field "r2" c)) in
+        (match an with
+         | "devs" ->
+             let r1 = devs_of_sx r1s and r2 = devs_of_sx r2s in
+             let m = devs_merge people merged r1 r2 c1 c2 in
+             (match outcome id "devs" m out with
+              | None -> ()
+              | Some (md, o) ->
+                  let gd = devs_of_sx o in
+                  let (o1, o2) = (match tick_offsets c1.c_begin c2.c_begin r1.dr_ticksize with
+                      | Ok p -> p | _ -> failwith "offsets") in
+                  if List.map string_of_name gd.dr_people <> List.map string_of_name merged then
+                    propfail id "devs: the merged developer list is not the merged identity list"
+                  else if not (dv_conserve_b people merged r1 r2 o1 o2 gd) then
+                    propfail id "devs: a figure of the merged result is not the sum of the inputs per aligned tick and merged developer (or a total differs)";
+                  if canon_devs gd <> canon_devs md then mismatch id "devs: merged result differs from the model")
+         | "couples" ->
+             let r1 = couples_of_sx r1s and r2 = couples_of_sx r2s in
+             let m = couples_merge people merged r1 r2 in
+             (match outcome id "couples" m out with
+              | None -> ()
+              | Some (mc, o) ->
+                  let gc = couples_of_sx o in
+                  (* the file table of the model against the one the implementation computed *)
+                  (match literal_merge r1.cr_files r2.cr_files, field_opt "filetab" obs with
+                   | Ok (mt, mm), Some ft ->
+                       let (gt, gm) = table_of_sx ft in
+                       let cn t = List.sort compare (List.map (fun (k, e) ->
+                           (string_of_name k, int_of_z e.final, int_of_z e.first, int_of_z e.second)) t) in
+                       if cn mt <> cn gt || List.map string_of_name mm <> List.map string_of_name gm then
+                         mismatch id "couples: MergeReversedDictsLiteral differs from the model"
+                   | _ -> mismatch id "couples: no file table");
+                  if List.map string_of_name gc.cr_people <> List.map string_of_name merged then
+                    propfail id "couples: the merged developer list is not the merged identity list"
+                  else if not (cp_sum_b people merged r1 r2 gc) then
+                    propfail id "couples: a matrix cell, a line count or a developer's file set of the merged result is not the sum/union of the inputs re-indexed by file name and merged identity";
+                  if canon_couples gc <> canon_couples mc then mismatch id "couples: merged result differs from the model")
+         | "burndown" ->
+             let r1 = burndown_of_sx r1s and r2 = burndown_of_sx r2s in
+             let m = bd_merge code_merge people merged r1 r2 in
+             (match outcome id "burndown" m out with
+              | None -> ()
+              | Some (mb, o) ->
+                  let one t = List.hd (args (field t o)) in
+                  let gpeople = names_of (field "people" o) in
+                  let gcodes = List.map int_of_sx (args (field "phcodes" o)) in
+                  let gpm = mat_of_sx (one "pm") in
+                  let gglobal = (match args (field "global" o) with [p; v] -> (int_of_sx p <> 0, int_of_sx v) | _ -> failwith "global") in
+                  let wf = wf_table_b people r1.br_people r2.br_people merged in
+                  if not wf then count "table_not_wf";
+                  let nm = List.length merged in
+                  let n1 = List.length r1.br_people and n2 = List.length r2.br_people in
+                  let hist_dom = wf && gcodes <> [] &&
+                                 (List.length r1.br_ph = n1) && (List.length r2.br_ph = n2) in
+                  let rect n pm = List.length pm = n && List.for_all (fun r -> List.length r = n + 2) pm in
+                  let rows_dom = wf && r2.br_pm <> [] && rect n1 r1.br_pm && rect n2 r2.br_pm in
+                  let bad_hist = if not hist_dom then None else begin
+                      count "selection_judged";
+                      let rec go w = function
+                        | [] -> None
+                        | g :: rest ->
+                            let e = int_of_z (expected_code people r1.br_people r2.br_people r1.br_ph r2.br_ph (z_of_int w)) in
+                            if g <> e then Some (w, g, e) else go (w + 1) rest in
+                      if List.length gcodes <> nm then Some (-1, List.length gcodes, nm) else go 0 gcodes end in
+                  let lit = literal_b people r1.br_people merged && literal_b people r2.br_people merged in
+                  if lit then count "burndown_literal" else count "burndown_identities_merge";
+                  (match bad_hist with
+                   | Some (w, g, e) ->
+                       propfail id (Printf.sprintf "burndown: history of merged developer %d is computed from the wrong input developers (selection code %d, the members of that identity give %d)%s"
+                                      w g e (if lit then "" else " [identities merge: F8]"))
+                   | None -> ());
+                  if rows_dom && (count "rows_judged"; not (pm_rows_b people merged r1 r2 gpm)) then
+                         propfail id ("burndown: an interaction row of the merged result is not the sum over the input developers of that merged identity"
+                                      ^ (if lit then "" else " [identities merge: F8]"));
+                       begin
+                         (* fine correspondence *)
+                         let mcodes = List.map (fun h -> int_of_z (code h)) mb.br_ph in
+                         let mglobal = (mb.br_global <> [], int_of_z (code mb.br_global)) in
+                         if List.map string_of_name gpeople <> List.map string_of_name mb.br_people then mismatch id "burndown: people differ from the model"
+                         else if int_of_sx (one "ticksize") <> int_of_z mb.br_ticksize
+                              || int_of_sx (one "sampling") <> int_of_z mb.br_sampling
+                              || int_of_sx (one "granularity") <> int_of_z mb.br_granularity then
+                           mismatch id "burndown: tick size / sampling / granularity differ from the model"
+                         else if gglobal <> mglobal then mismatch id "burndown: global history differs from the model"
+                         else if gcodes <> mcodes then
+                           mismatch id ("burndown: selected people histories differ: impl=" ^ show_ints gcodes ^ " model=" ^ show_ints mcodes)
+                         else if List.map (List.map int_of_z) gpm <> List.map (List.map int_of_z) mb.br_pm then
+                           mismatch id "burndown: people interaction matrix differs from the model"
+                         else if int_of_sx (one "files") <> 0 then mismatch id "burndown: file histories are merged (the model has none)"
+                       end)
+         | a -> failwith ("unknown analysis " ^ a)))
